@@ -84,6 +84,7 @@ def plan(tier, seed):
     ch = [{'k': 'syn', 'first': None}]
     for i in range(len(ALPHA)):
         ch.append({'k': 'syn', 'first': i, 'maxlen': 2 if tier == 'quick' else 3})
+    ch.append({'k': 'rewrite'})
     for t in ('mex', 'nimitz'):
         ch.append({'k': 'table', 'type': t})
         for part in range(8):
@@ -120,8 +121,33 @@ def table_model(idx):
     return out
 
 
+def _rewrite_case(case):
+    """The header file at ONE path is rewritten between decodes; each decode must use the table as it is now."""
+    from io_drawer.ilog import parse_ilog_data
+    out = []
+    d = tempfile.mkdtemp(prefix='c14r_', dir=clidrv.scratch_root())
+    try:
+        path = os.path.join(d, 'pte.h')
+        data = entries_blob()[:8 * 60]
+        for step, tbl in enumerate(case['tables']):
+            cheader.write_header(path, [ALPHA[i] for i in tbl], [('f', 1)])
+            got = parse_ilog_data(memoryview(data), path)
+            want = rilog.decode(data, table_model(tbl))
+            LAST['defined'] = sum(1 for w in want[2:] if not w.endswith(' Undefined'))
+            LAST['lines'] = len(want) - 2
+            diff = compare(got, want, data)
+            if diff:
+                out.append({'key': 'C14:stale-table', 'what': 'step %d (table %s written to the same path): %s' % (step, tbl, diff), 'case': case})
+                break
+    finally:
+        shutil.rmtree(d, ignore_errors=True)
+    return out
+
+
 def eval_case(case):
     impl.ensure(False)
+    if 'tables' in case:
+        return _rewrite_case(case)
     from io_drawer.ilog import parse_ilog_data
     data = bytes.fromhex(case['data']) if 'data' in case else _named_blob(case['blob'])
     tmpd = None
@@ -241,6 +267,10 @@ def run_chunk(chunk):
                     _do(res, {'table': tbl, 'variant': 1, 'blob': ['fwd', tail]})
                 for n in range(0, 17):
                     _do(res, {'table': tbl, 'variant': 2, 'data': entries_blob()[:n].hex()})
+    elif k == 'rewrite':
+        tbls = [[0, 3], [3, 0], [4], [], [1, 2, 5]]
+        for order in itertools.permutations(range(len(tbls)), 3):
+            _do(res, {'tables': [tbls[i] for i in order]}, step=13)
     elif k == 'table':
         t = chunk['type']
         from io_drawer.ilog import PTETable
